@@ -119,6 +119,18 @@ inline std::vector<Case> single_deviations(Seed const& s, bool all256, bool with
             }
         }
     }
+    if (s.regions.empty())
+    {
+        // seeds produced by a C library's encoder carry no field table: every byte x {flip bit 0, flip bit 7, 0x00, 0xFF}
+        for (size_t off = 0; off < b.size(); ++off) for (int k = 0; k < 4; ++k)
+        {
+            int nv = k == 0 ? (b[off] ^ 0x01) : k == 1 ? (b[off] ^ 0x80) : k == 2 ? 0x00 : 0xFF;
+            if (nv == b[off]) continue;
+            Case c{"byte@" + std::to_string(off) + "=" + std::to_string(nv), b, 2, -1, "data", nv};
+            c.bytes[off] = (unsigned char)nv;
+            out.push_back(std::move(c));
+        }
+    }
     static const int few[] = {0, 1, 2, 3, 0x7F, 0x80, 0xFE, 0xFF};
     for (auto const& r : s.regions)
     {
@@ -226,8 +238,15 @@ template <class Tag, class Img, class Dev> inline bool native_read(Dev& d, unsig
 template <class Tag, class Img, class Dev> inline bool native_read(Dev&, unsigned char, Obs& o, std::false_type) { o.na = true; return false; }
 template <class Tag, class Img> using native_ok = std::integral_constant<bool, gil::is_read_supported<typename gil::get_pixel_type<typename Img::view_t>::type, Tag>::value>;
 
+// how bytes are presented through device kind d (formats decoded by a C library need their own handle type)
+struct DefaultDev
+{
+    static constexpr bool handle_needs_path = false;
+    template <class F> static void with(int d, ioc::Source const& s, F f) { ioc::with_dev(d, s, f); }
+};
+
 // one execution of one entry point on one device; `fill` paints the stack and pre-fills destinations
-template <class Tag, class NativeImg>
+template <class Tag, class NativeImg, class DevA = DefaultDev>
 Obs run_ep(int ep, int dev, ioc::Source const& src, Seed const& seed, unsigned char fill)
 {
     Obs o;
@@ -235,12 +254,12 @@ Obs run_ep(int ep, int dev, ioc::Source const& src, Seed const& seed, unsigned c
     gil::point_t declared(seed.w, seed.h);
     if (ep == EP_VIEW || ep == EP_CONVERT_VIEW)
     {
-        try { ioc::with_dev(dev, src, [&](auto& d) { auto be = gil::read_image_info(d, Tag()); declared = gil::point_t(std::max<long>(0, long(be._info._width)), std::max<long>(0, long(be._info._height))); }); }
+        try { DevA::with(dev, src, [&](auto& d) { auto be = gil::read_image_info(d, Tag()); declared = gil::point_t(std::max<long>(0, long(be._info._width)), std::max<long>(0, long(be._info._height))); }); }
         catch (...) {}
     }
     try
     {
-        ioc::with_dev(dev, src, [&](auto& d) {
+        DevA::with(dev, src, [&](auto& d) {
             using P8 = gil::rgb8_pixel_t;
             switch (ep)
             {
@@ -285,6 +304,7 @@ Obs run_ep(int ep, int dev, ioc::Source const& src, Seed const& seed, unsigned c
         o.cls = o.na ? "n/a" : "ret";
     }
     catch (std::ios_base::failure const&) { o.cls = "exc:ios_failure"; o.data.clear(); }
+    catch (std::runtime_error const& ex) { o.cls = std::strncmp(ex.what(), "harness:", 8) == 0 ? "exc:library-refused-to-open" : "exc:std"; o.data.clear(); }
     catch (std::bad_alloc const&) { o.cls = "exc:bad_alloc"; o.data.clear(); }
     catch (std::exception const&) { o.cls = "exc:std"; o.data.clear(); }
     catch (...) { o.cls = "exc:non-std"; o.data.clear(); }
@@ -294,7 +314,7 @@ Obs run_ep(int ep, int dev, ioc::Source const& src, Seed const& seed, unsigned c
 static const int CASE_LIMIT_S = 4;      // a <= 300-byte input that needs longer than this is reported as a hang
 struct Opts { int devmask = 3; bool all256 = false; bool pairs = false; bool name_dev_trunc_only = true; };
 
-template <class Tag, class NativeImg>
+template <class Tag, class NativeImg, class DevA = DefaultDev>
 void run_cases(Emit& e, Seed const& seed, std::vector<Case> const& cases, Opts const& o, std::string const& unit)
 {
     const long need = needed_for_pixels(seed), hdr = header_end(seed);
@@ -308,15 +328,15 @@ void run_cases(Emit& e, Seed const& seed, std::vector<Case> const& cases, Opts c
             if (!(o.devmask & (1 << dev))) continue;
             if (dev == ioc::DEV_NAME && o.name_dev_trunc_only && c.kind != 0 && c.kind != 4) continue;
             ioc::Source src{&c.bytes, "", true};
-            if (dev == ioc::DEV_NAME) { if (!file) file.reset(new ioc::ScratchFile("c11-" + std::string(seed.name), seed.format, c.bytes)); src.path = file->path; }
+            if (dev == ioc::DEV_NAME || (dev == ioc::DEV_FILE && DevA::handle_needs_path)) { if (!file) file.reset(new ioc::ScratchFile("c11-" + std::string(seed.name), seed.format, c.bytes)); src.path = file->path; }
             for (int ep = 0; ep < EP_COUNT; ++ep)
             {
                 std::string id = unit + "/" + c.id + "/" + ioc::dev_name(dev) + "/" + ep_name(ep);
                 if (!e.begin(id)) continue;
                 { itimerval it{}; it.it_value.tv_sec = CASE_LIMIT_S; setitimer(ITIMER_REAL, &it, nullptr); }   // per-case watchdog
-                Obs a = run_ep<Tag, NativeImg>(ep, dev, src, seed, 0x5A);
+                Obs a = run_ep<Tag, NativeImg, DevA>(ep, dev, src, seed, 0x5A);
                 if (a.na) { e.count("entry_point_not_provided_for_this_format"); e.end(false); continue; }
-                Obs b = run_ep<Tag, NativeImg>(ep, dev, src, seed, 0xC3);
+                Obs b = run_ep<Tag, NativeImg, DevA>(ep, dev, src, seed, 0xC3);
                 e.count(std::string("outcome:") + a.cls);
                 if (a.cls == "exc:non-std") e.fail("non-std-exception", "");
                 if (!(a == b)) e.fail("result-depends-on-uninitialised-bytes", a.cls + " " + a.data + " vs " + b.cls + " " + b.data);
